@@ -230,44 +230,94 @@ func (raceHarness) Run(spec any) (res verifsim.RunResult) {
 			probeState := map[string]ice.ProbeState{} // last state ProbeAndDial reported per candidate address
 			var wg sync.WaitGroup
 			wg.Add(2)
-			// accepting side: transcription of snapshotReceiver.runTransfer's acceptOnce + auth
+			// accepting side: transcription of snapshotReceiver.runTransfer's accept loop (since fix
+			// 40bdffe): every incoming connection is authenticated, the first that passes is
+			// committed to; a failure is final only if nothing passes within 15 s of it. (The real
+			// loop runs in tier T4, part C09APP.) Unlike the product the harness does not close
+			// the connections that fail: whether the DIALER closes what it abandons is judged below.
 			spawn("L", func() {
 				defer wg.Done()
-				qc, err := ln.Accept(ctx)
-				if err != nil {
-					mu.Lock()
-					acceptAuth = fmt.Errorf("accept: %w", err)
-					mu.Unlock()
-					return
+				type res struct {
+					qc  *quic.Conn
+					err error
 				}
-				mu.Lock()
-				committed = qc
-				mu.Unlock()
-				// observer: later completions (the product leaves them in the accept queue)
+				resCh := make(chan res, 32)
+				lctx, lstop := context.WithCancel(ctx)
+				defer lstop()
 				go func() {
 					for {
-						c, err := ln.Accept(ctx)
+						qc, err := ln.Accept(lctx)
 						if err != nil {
 							return
 						}
-						mu.Lock()
-						later = append(later, c)
-						mu.Unlock()
+						go func() {
+							tc, derr := transferquic.NewDialer(qc, logger).Dial(lctx, "peer")
+							if derr != nil {
+								resCh <- res{qc, derr}
+								return
+							}
+							actx, acancel := context.WithTimeout(lctx, 10*time.Second)
+							err := authenticateTransport(actx, tc, "JOIN-CODE", authRoleReceive)
+							acancel()
+							resCh <- res{qc, err}
+						}()
 					}
 				}()
-				tc, derr := transferquic.NewDialer(qc, logger).Dial(ctx, "peer")
-				if derr != nil {
-					mu.Lock()
-					acceptAuth = derr
-					mu.Unlock()
-					return
+				var giveUp <-chan time.Time
+				lastErr := fmt.Errorf("accept: no connection")
+				for {
+					select {
+					case r := <-resCh:
+						if r.err == nil {
+							mu.Lock()
+							committed, acceptAuth = r.qc, nil
+							mu.Unlock()
+							lstop()
+							// observer: later completions (the product leaves them in the accept queue)
+							go func() {
+								for {
+									c, err := ln.Accept(ctx)
+									if err != nil {
+										return
+									}
+									mu.Lock()
+									later = append(later, c)
+									mu.Unlock()
+								}
+							}()
+							go func() {
+								for {
+									select {
+									case r := <-resCh:
+										mu.Lock()
+										later = append(later, r.qc)
+										mu.Unlock()
+									case <-ctx.Done():
+										return
+									}
+								}
+							}()
+							return
+						}
+						mu.Lock()
+						later = append(later, r.qc)
+						mu.Unlock()
+						lastErr = r.err
+						if giveUp == nil {
+							giveUp = time.After(15 * time.Second)
+						}
+					case <-giveUp:
+						mu.Lock()
+						acceptAuth = lastErr
+						mu.Unlock()
+						return
+					case <-ctx.Done():
+						mu.Lock()
+						acceptAuth = fmt.Errorf("accept: %w", lastErr)
+						mu.Unlock()
+						return
+					}
 				}
-				actx, acancel := context.WithTimeout(ctx, 10*time.Second)
-				err = authenticateTransport(actx, tc, "JOIN-CODE", authRoleReceive)
-				acancel()
-				mu.Lock()
-				acceptAuth = err
-				mu.Unlock()
 			})
 			// dialing side: the real ProbeAndDial, then auth as in runICEQUICTransfer
 			spawn("D", func() {
@@ -344,7 +394,7 @@ func (raceHarness) Run(spec any) (res verifsim.RunResult) {
 				addV("dial-failed-with-reachable-path", fmt.Sprintf("usable=%d", min(usable, 2)), fmt.Sprintf("ProbeAndDial failed although %d of %d paths are reachable: %v", usable, len(sp.Paths), dialErr))
 			default:
 				res.Counters["dial_succeeded"]++
-				if dp != ap {
+				if dp != ap && committed != nil {
 					addV("split-connection", "dialer-and-acceptor-on-different-connections", fmt.Sprintf("the dialing side uses %s, the accepting side committed to %s (paths %+v); authentication: dialer=%v acceptor=%v", dp, ap, sp.Paths, dialAuth, acceptAuth))
 				} else if (dialAuth != nil || acceptAuth != nil) && authInTime(sp, dialed, unet) {
 					addV("auth-failed-on-common-connection", "auth", fmt.Sprintf("both sides are on %s but authentication failed: dialer=%v acceptor=%v", dp, dialAuth, acceptAuth))
@@ -354,7 +404,9 @@ func (raceHarness) Run(spec any) (res verifsim.RunResult) {
 				kind := map[string]bool{}
 				var strays []*quic.Conn
 				for _, c := range append(append([]*quic.Conn(nil), later...), committed) {
-					if c == nil || pathName(c) == dp {
+					// the one connection both sides use is the one the acceptor authenticated; any
+					// other - also a second one over the same path (a candidate offered twice) - must go
+					if c == nil || (c == committed && acceptAuth == nil) || (acceptAuth != nil && pathName(c) == dp) {
 						continue
 					}
 					select {
